@@ -77,7 +77,7 @@ func Unpack(buf []byte, dotu bool) (fc *Fcall, fcsz int, err error) {
 		}
 
 		if dotu {
-			if len(p) > 0 {
+			if len(p) >= 4 {
 				fc.Unamenum, p = gint32(p)
 			} else {
 				fc.Unamenum = NOUID
@@ -106,7 +106,7 @@ func Unpack(buf []byte, dotu bool) (fc *Fcall, fcsz int, err error) {
 		}
 
 		if dotu {
-			if len(p) > 0 {
+			if len(p) >= 4 {
 				fc.Unamenum, p = gint32(p)
 			} else {
 				fc.Unamenum = NOUID
@@ -119,6 +119,9 @@ func Unpack(buf []byte, dotu bool) (fc *Fcall, fcsz int, err error) {
 			goto szerror
 		}
 		if dotu {
+			if len(p) < 4 {
+				goto szerror
+			}
 			fc.Errornum, p = gint32(p)
 		} else {
 			fc.Errornum = 0
@@ -155,6 +158,9 @@ func Unpack(buf []byte, dotu bool) (fc *Fcall, fcsz int, err error) {
 		fc.Fid, p = gint32(p)
 		fc.Name, p = gstr(p)
 		if p == nil {
+			goto szerror
+		}
+		if len(p) < 5 {
 			goto szerror
 		}
 		fc.Perm, p = gint32(p)
